@@ -126,7 +126,12 @@ let read_obs stream =
       let lz = match read_file_lazy stream with
         | Ok (sizes, le) -> short_or_digest (String.concat "," (List.map dec_of_n sizes)) ^ ":" ^ end_obs le
         | Err _ -> "-:-" in
-      Printf.sprintf "H:%s|R:%d:%s|E:%s|L:%s" htext (List.length recs) (short_or_digest canon_all) (end_obs e) lz
+      (* the same iteration through ONE reused RecordBuf (model: decode_into the previous record) *)
+      let reused = match read_file_reused stream with
+        | Ok (rs, re) ->
+            short_or_digest (String.concat ";" (List.map (fun r -> short_or_digest (canon r)) rs)) ^ ":" ^ end_obs re
+        | Err _ -> "-:-" in
+      Printf.sprintf "H:%s|R:%d:%s|E:%s|L:%s|B:%s" htext (List.length recs) (short_or_digest canon_all) (end_obs e) lz reused
 
 (* the records of a `file` case: 12 fields each from index [from] on; parse_rec reads indices 2..13 *)
 let file_recs a from =
